@@ -583,3 +583,18 @@ Example C20_operation_hypotheses_satisfiable :
   = [(b "GET", b "https://localhost:5000/v2/hello/world/manifests/v1");
      (b "PUT", b "https://localhost:5000/v2/hello/world/manifests/v2")].
 Proof. repeat split; try (vm_compute; reflexivity). repeat constructor. Qed.
+
+(* ---------- Digest.Validate tied to go-digest's source ---------- *)
+
+(* the digest check assembled from go-digest's own algorithm table (names, hash sizes, anchored
+   regexes of the encoded part, read off the pinned module's algorithm.go on every run; this is
+   what the correspondence runs) is the closed form valid_digest all theorems are stated about *)
+Theorem C20_digest_from_source :
+  forall (avail : str -> bool) s, valid_digest_gen avail s = valid_digest avail s.
+Proof. exact valid_digest_gen_eq. Qed.
+Print Assumptions C20_digest_from_source.
+
+Example C20_go_digest_table :
+  map (fun p => (fst (fst p), snd (fst p))) go_digest_algorithms
+  = [(b "sha256", 64%nat); (b "sha384", 96%nat); (b "sha512", 128%nat)].
+Proof. vm_compute. reflexivity. Qed.
